@@ -107,6 +107,16 @@ pub fn crate_presentation(x: &DS, simple: bool) -> Result<CratePres, String> {
 }
 
 fn check_fg(c: &FgCase, obs: &mut Obs) -> Result<(), String> {
+    check_fg_depth(c, obs, false)
+}
+
+/// the same without the expensive clauses (subgroup counts, orders): structure, relator and cone
+/// classes, abelianisation - cheap enough for hundreds of thousands of symbols
+fn check_fg_light(c: &FgCase, obs: &mut Obs) -> Result<(), String> {
+    check_fg_depth(c, obs, true)
+}
+
+fn check_fg_depth(c: &FgCase, obs: &mut Obs, light: bool) -> Result<(), String> {
     let x = &c.0;
     ensure!(x.is_complete() && x.ops_are_involutions() && x.v_consistent() && x.is_connected() && x.commutes(), "harness: case is not a connected complete D-symbol");
     let cp = crate_presentation(x, false)?;
@@ -167,6 +177,13 @@ fn check_fg(c: &FgCase, obs: &mut Obs) -> Result<(), String> {
         ensure!(a1 == a2, "abelianisation of the returned presentation is {:?}, of the textbook presentation {:?}", a1, a2);
     } else {
         obs.class("abelianisation skipped (oracle entries too large)");
+    }
+    if light {
+        let has_cone_or_mirror = !want_cones.is_empty() || (0..=x.dim).any(|i| (1..=x.size).any(|d| x.op[i][d] == d));
+        obs.nontrivial(cp.nr_gens >= 1 && has_cone_or_mirror);
+        obs.class(&format!("dim {}", x.dim));
+        obs.classify((0..x.dim).any(|i| (1..=x.size).any(|d| x.v[i][d] == 2)), "has a 2-orbit with v = 2");
+        return Ok(());
     }
     let (s1, s2) = (simplify_presentation(&p_crate), simplify_presentation(&own.pres));
     let kmax = 4;
@@ -230,6 +247,23 @@ pub const SUB_FG: Sub<FgCase> = Sub {
     journal: false,
 };
 
+pub const SUB_FG_LIGHT: Sub<FgCase> = Sub {
+    name: "presentation_light",
+    rule: "connected complete D-symbol, high volume: the structural clauses of 'presentation' (generators, inverse words, reduced words, relator classes = 2-orbit relations computed from edge_to_word alone, cones) and equal abelianisation with the textbook presentation; non-trivial = >= 1 generator and a cone or mirror",
+    check: check_fg_light,
+    panic_discards: &[],
+    journal: false,
+};
+
+/// small branching numbers with many 2s (v = 2 on a cyclic orbit is where gluing counts coincide)
+fn low_v_symbol(dim: usize, sizes: std::ops::RangeInclusive<usize>) -> impl Strategy<Value = DS> {
+    (crate::gen::dsets::connected_dset_strategy(dim, sizes), prop::collection::vec(prop_oneof![3 => Just(1usize), 4 => Just(2usize), 1 => Just(3usize), 1 => Just(4usize)], 24)).prop_map(|(ds, vs)| {
+        let reps = orbit_reps(&ds);
+        let vals: Vec<usize> = (0..reps.len()).map(|j| vs[j % vs.len()]).collect();
+        assign(&ds, &reps, &vals)
+    })
+}
+
 pub fn corpus_lit() -> Vec<DS> {
     let txt = include_str!("../../../corpus/literature_symbols.txt");
     txt.lines().map(|l| l.trim()).filter(|l| l.starts_with('<')).filter_map(DS::parse).collect()
@@ -264,11 +298,17 @@ pub fn run(ctx: &mut Ctx) {
     }
     ctx.run_prop(&SUB_FG, || prop_oneof![random_symbol(2, 6..=40), random_symbol(3, 5..=40), random_symbol(4, 4..=30), random_symbol(5, 4..=24)].prop_map(FgCase), n / 3);
     ctx.run_prop(&SUB_FG, || prop_oneof![random_symbol(2, 80..=300), random_symbol(3, 80..=300)].prop_map(FgCase), n / 60);
+    // high volume, cheap clauses only
+    ctx.layer("random-light");
+    let m = t.pick(120_000u32, 3_000_000u32);
+    ctx.run_prop(&SUB_FG_LIGHT, || prop_oneof![low_v_symbol(3, 6..=14), low_v_symbol(3, 6..=14), low_v_symbol(2, 6..=20), low_v_symbol(4, 5..=12)].prop_map(FgCase), m);
+    ctx.run_prop(&SUB_FG_LIGHT, || prop_oneof![random_symbol(3, 6..=16), random_symbol(2, 6..=24)].prop_map(FgCase), m / 3);
 }
 
 pub fn replay(ctx: &mut Ctx, sub: &str, case: &Value) -> Option<Result<(), String>> {
     Some(match sub {
         "presentation" => ctx.run_one(&SUB_FG, &FgCase::decode(case)?),
+        "presentation_light" => ctx.run_one(&SUB_FG_LIGHT, &FgCase::decode(case)?),
         _ => return None,
     })
 }
